@@ -15,6 +15,10 @@ CHECKS = {
          "bounded-exhaustive enumeration of atom sequences and edit balls on the real lexers with tiling/aliasing/re-lex oracles after every Next",
          "For every enumerated input and every token position: the token is input[offset-len:offset] by pointer identity and equals a pristine copy modulo the two documented rewrites; tokens strictly ordered, non-overlapping, non-empty; css/js tokens tile the consumed bytes; html/xml gaps are whitespace before a tag closer; Text/AttrKey/AttrVal lie inside the token; append(token) cannot write into the input; each css/js token re-lexes to itself; the set of bytes altered in place is exactly the documented one. Exhaustive within the bounds.",
          "Bounds per alphabet in evidence (css 4 atoms full alphabet, html/js 3-4, xml 4; one more in thorough); JS restricted to valid UTF-8 as the property says; template middle/tail re-lexed after the prefix `${."),
+ "C10": ("model_checking",
+         "exhaustive generation of valid documents and unpruned token/byte sequences on the real parser, lock-step shadow stack and encoding/json as reference",
+         "Every valid JSON document up to the token bound (all escape forms incl. backslash runs before the closing quote, all number forms) x whitespace at every token boundary is parsed and re-joined through State(), and must equal json.Compact byte for byte; on every token sequence and byte string up to the bound a shadow container stack checks End units and State(); a strict reference tokenizer + grammar walk locates the four named error classes, which must surface as ErrorGrammar with a non-EOF error before any unit past the offending token. Abstract parser states/transitions reached are reported.",
+         "Bounds: documents <=7 (quick) / <=9 (thorough) tokens over 30 token spellings; token sequences <=5/6 over 12 tokens; byte strings <=4/5 atoms over 30 atoms; encoding/json trusted as judge."),
  "C12": ("model_checking",
          "explicit-state search to a fix-point over the real cursor objects in lock-step with a reference cursor",
          "All reachable (start,pos) states of parse.Input and buffer.Lexer are enumerated (BFS to a fix-point, successor = fresh object + shortest history + one operation) for every byte string up to the bound over an alphabet holding every truncated UTF-8 shape, for 11 constructors incl. failing readers; every observer and mutator result is compared with a reference cursor, the caller's array is compared before/after Restore. Exhaustive within the bound; nothing is sampled.",
